@@ -2,7 +2,8 @@
 # overlay.sh <out.json> <workdir> [mutant-overlay.json]
 # Generates, from the CURRENT pkg/client/rp/jwks.go (or the mutant's copy of it), the
 # overlay the C13 schedule explorer needs: rewritten jwks.go (sync -> vsync shim, go ->
-# vsync.Go, select -> vsync.Select), the virtual package pkg/zzverif/vsync, and an accessor
+# vsync.Go, select -> vsync.Select, ctx.Err() -> vsync.Obs(ctx.Err())), the virtual package pkg/zzverif/vsync
+# (the shared shim plus this check's additions vsyncx/obs.go.txt), and an accessor
 # file for the unexported cache fields. /repo is not modified.
 set -eu
 OUT="$1"; DIR="$2"; MUT="${3:-}"
@@ -17,6 +18,7 @@ fi
 [ -x "$H/../.build/c13-rewrite" ] && [ "$H/../.build/c13-rewrite" -nt "$HERE/rewrite/main.go" ] || (cd "$H" && go1.26.8 build -o "$H/../.build/c13-rewrite" ./checks/c13/rewrite)
 "$H/../.build/c13-rewrite" "$SRC" "$DIR/jwks.go" >&2
 cp "$H/overlay/vsync/vsync.go" "$DIR/vsync.go"
+cp "$HERE/vsyncx/obs.go.txt" "$DIR/vsync_obs.go"
 cat > "$DIR/zz_verif_access.go" <<'GO'
 package rp
 
@@ -53,6 +55,7 @@ cat > "$OUT" <<JSON
 {"Replace":{
  "/repo/pkg/client/rp/jwks.go":"$DIR/jwks.go",
  "/repo/pkg/client/rp/zz_verif_access.go":"$DIR/zz_verif_access.go",
- "/repo/pkg/zzverif/vsync/vsync.go":"$DIR/vsync.go"
+ "/repo/pkg/zzverif/vsync/vsync.go":"$DIR/vsync.go",
+ "/repo/pkg/zzverif/vsync/vsync_obs.go":"$DIR/vsync_obs.go"
 }}
 JSON
